@@ -17,7 +17,7 @@ FAMILY_OPS = {
     "matrix": [(6, "m_new"), (8, "m_row"), (6, "m_slice"), (7, "m_set_s"), (7, "m_set_v"), (5, "m_set_m"), (5, "m_iop"), (4, "m_bad"),
                (6, "get"), (5, "set_s"), (4, "slice"), (5, "mask"), (4, "alias"), (4, "iop"), (3, "mv"), (3, "ro"), (6, "release"), (2, "gcp")],
     "array2d": [(6, "d_new"), (8, "d_item"), (8, "d_slice"), (7, "d_set_s"), (6, "d_set_a"), (5, "d_set_1d"), (5, "d_mask_get"),
-                (5, "d_mask_set"), (5, "d_iop"), (4, "elem_w"), (4, "d_bad"), (4, "release"), (2, "gcp")],
+                (5, "d_mask_set"), (5, "d_iop"), (5, "d_comp"), (4, "elem_w"), (4, "d_bad"), (4, "release"), (2, "gcp")],
     "varray": [(6, "v_new"), (8, "v_row"), (6, "v_slice"), (7, "v_mask"), (7, "v_set_row"), (8, "v_set_v"), (5, "v_set_m"), (5, "v_size"),
                (4, "v_resize"), (4, "v_ro"), (4, "v_bad"), (6, "get"), (5, "set_s"), (4, "iop"), (3, "ro"), (5, "mask"), (4, "alias"), (3, "comp"),
                (3, "slice"), (2, "mv"), (8, "release"), (3, "gcp")],
@@ -42,6 +42,8 @@ def gen_family_op(r, fam, o, op, maxn, gen_slice):
         op["idx"] = r.choice([2 ** 31, -2 ** 31, 2 ** 32, 2 ** 32 + 1, -2 ** 32, 2 ** 63 - 1, -2 ** 63, 2 ** 64, -2 ** 64, 7, -8])
         op["how"] = r.choice(["get", "set", "set_v"])
         op["k"] = r.below(64)
+    elif o == "d_comp":
+        op["c"] = r.below(4)
     elif o in ("m_iop", "d_iop"):
         op["name"] = r.choice(["__iadd__", "__isub__"])
         op["rhs"] = r.choice(["scalar", "same", "same", "badshape"])
@@ -105,8 +107,8 @@ class FamilyMixin:
             t = PT.ARRAYS[h.tname]
             for j in range(h.ly):
                 for i in range(h.lx):
-                    if self.pack_vals(t, t.flat(h.real.item(i, j))) != self.pack_vals(t, h.store.vals[j * h.lx + i]):
-                        raise V("element-value", "a.item(%d,%d) reads %r, model %r" % (i, j, t.flat(h.real.item(i, j)), h.store.vals[j * h.lx + i]))
+                    if self.pack_vals(t, t.flat(h.real.item(i, j))) != self.pack_vals(t, self.d_get(h, j * h.lx + i)):
+                        raise V("element-value", "a.item(%d,%d) reads %r, model %r" % (i, j, t.flat(h.real.item(i, j)), self.d_get(h, j * h.lx + i)))
         elif h.kind == "varr":
             if len(h.real) != len(h.idx):
                 raise V("len", "len() %d, model %d" % (len(h.real), len(h.idx)))
@@ -327,7 +329,8 @@ class FamilyMixin:
             for j in range(h.ly):
                 for i in range(h.lx):
                     k = j * h.lx + i
-                    h.store.vals[k] = tuple(self.wrap(t.base, x + sign * y) for x, y in zip(h.store.vals[k], per[(i, j)]))
+                    cur = self.d_get(h, k)
+                    self.d_put(h, k, tuple(self.wrap(t.base, x + sign * y) for x, y in zip(cur, per[(i, j)])))
 
     def op_m_bad(self, op):
         h = self.pick_mat(op)
@@ -357,6 +360,32 @@ class FamilyMixin:
                     h.store.vals[(i % h.rows) * h.cols + c] = data[c]
 
     # ================================================================ FixedArray2D ====================
+    # a 2-D handle may be a channel view (.r/.g/.b/.a of a Color4 2-D array): `comp` selects the channel
+    def d_get(self, h, k):
+        v = h.store.vals[k]
+        return (v[h.comp[0]],) if h.comp is not None else v
+
+    def d_put(self, h, k, val):
+        if h.comp is not None:
+            cur = list(h.store.vals[k])
+            cur[h.comp[0]] = val[0]
+            h.store.vals[k] = tuple(cur)
+        else:
+            h.store.vals[k] = tuple(val)
+
+    def op_d_comp(self, op):
+        h = self.pick(op["h"], lambda x: x.kind == "a2d" and x.comp is None and x.atype == "Color4fArray2D")
+        if not h:
+            return False
+        self.sig_ctx = ("array2d-channel-view", "a2d", h.atype)
+        c = op["c"] % 4
+        got = self.call(getattr, h.real, "rgba"[c])
+        self.expect(got, False, "a2d.%s" % "rgba"[c])
+        nh = self.Handle(got[1], "a2d", "FloatArray", h.store, h.idx, True, False, [c])
+        nh.lx, nh.ly, nh.atype = h.lx, h.ly, "FloatArray2D"
+        self.inc("probe.array2d_channel_view")
+        self.add(nh)
+
     def op_d_new(self, op):
         tn, lx, ly = op["t"], op["r"], op["c"]
         et = A2D_TYPES[tn]
@@ -398,7 +427,7 @@ class FamilyMixin:
         if bad:
             return
         k = (j % h.ly) * h.lx + (i % h.lx)
-        if not self.elem_eq(h.tname, got[1], h.store.vals[k]):
+        if not self.elem_eq(h.tname, got[1], self.d_get(h, k)):
             raise self.Violation("element-value", "a.item(%d,%d) returned %r" % (i, j, got[1]))
         if op.get("keep") and h.atype.startswith("Color4"):
             # class-type elements come back as a reference into the 2-D array (and keep it alive)
@@ -418,7 +447,7 @@ class FamilyMixin:
         self.expect(got, bad, "a[%r,%r] of size (%d,%d)" % (op["x"], op["y"], h.lx, h.ly))
         if bad:
             return
-        vals = [h.store.vals[j * h.lx + i] for j in sy for i in sx]
+        vals = [self.d_get(h, j * h.lx + i) for j in sy for i in sx]
         nh = self.Handle(got[1], "a2d", h.tname, self.new_store(h.tname, vals), range(len(vals)), True)
         nh.lx, nh.ly, nh.atype = len(sx), len(sy), h.atype
         self.add(nh)
@@ -436,7 +465,7 @@ class FamilyMixin:
         if not bad:
             for j in sy:
                 for i in sx:
-                    h.store.vals[j * h.lx + i] = v
+                    self.d_put(h, j * h.lx + i, v)
 
     def op_d_set_a(self, op):
         h = self.pick_a2d(op)
@@ -461,7 +490,7 @@ class FamilyMixin:
         if not bad:
             for jj, j in enumerate(sy):
                 for ii, i in enumerate(sx):
-                    h.store.vals[j * h.lx + i] = svals[(ii, jj)]
+                    self.d_put(h, j * h.lx + i, svals[(ii, jj)])
 
     def op_d_set_1d(self, op):
         h = self.pick_a2d(op)
@@ -481,7 +510,7 @@ class FamilyMixin:
             z = 0
             for j in sy:
                 for i in sx:
-                    h.store.vals[j * h.lx + i] = data[z]
+                    self.d_put(h, j * h.lx + i, data[z])
                     z += 1
 
     def make_mask2d(self, bits, lx, ly):
@@ -510,7 +539,7 @@ class FamilyMixin:
         for j in range(h.ly):
             for i in range(h.lx):
                 if op["m"][(j * h.lx + i) % len(op["m"])]:
-                    if not self.elem_eq(h.tname, a.item(i, j), h.store.vals[j * h.lx + i]):
+                    if not self.elem_eq(h.tname, a.item(i, j), self.d_get(h, j * h.lx + i)):
                         raise self.Violation("element-value", "a[mask2d].item(%d,%d) differs from a.item(%d,%d)" % (i, j, i, j))
 
     def op_d_mask_set(self, op):
@@ -535,7 +564,7 @@ class FamilyMixin:
                 for j in range(h.ly):
                     for i in range(h.lx):
                         if bits[j][i]:
-                            h.store.vals[j * h.lx + i] = v
+                            self.d_put(h, j * h.lx + i, v)
         elif form == "a2d":
             src = getattr(imath, h.atype)(h.lx, h.ly)
             sv = {}
@@ -550,7 +579,7 @@ class FamilyMixin:
                 for j in range(h.ly):
                     for i in range(h.lx):
                         if bits[j][i]:
-                            h.store.vals[j * h.lx + i] = sv[(i, j)]
+                            self.d_put(h, j * h.lx + i, sv[(i, j)])
         else:
             ln = n if form == "full1d" else cnt if form == "packed1d" else n + 1 + (1 if n + 1 == cnt else 0)
             data = [self.fresh_value(h.tname, op["v"] * 32 + z + 11) for z in range(ln)]
@@ -565,9 +594,9 @@ class FamilyMixin:
                     for i in range(h.lx):
                         if ln == n:
                             if bits[j][i]:
-                                h.store.vals[j * h.lx + i] = data[j * h.lx + i]
+                                self.d_put(h, j * h.lx + i, data[j * h.lx + i])
                         elif bits[j][i]:
-                            h.store.vals[j * h.lx + i] = data[z]
+                            self.d_put(h, j * h.lx + i, data[z])
                             z += 1
 
     def op_d_bad(self, op):
@@ -588,7 +617,7 @@ class FamilyMixin:
             self.expect(got, bad, "a[%d,:] = scalar" % i)
             if not bad:
                 for j in range(h.ly):
-                    h.store.vals[j * h.lx + i % h.lx] = v
+                    self.d_put(h, j * h.lx + i % h.lx, v)
         else:
             # an index that is not a 2-tuple, with array data: must raise, not crash
             src = getattr(imath, h.atype)(1, 1)
